@@ -313,6 +313,50 @@ func init() {
 				},
 			},
 			{
+				// texts whose ENCODED form begins like something else the library knows: a concatenation header
+				// (05 00 03 ref total seq / 06 08 04 ref ref total seq), a TLV, a PDU header. Content is content.
+				Name: "lookalike", N: q(6000, 600000),
+				Run: func(c *fw.Case) {
+					r := c.R
+					tab := ref.GSM7()
+					total := r.Range(1, 127)
+					seq := r.Range(1, total)
+					if r.Chance(1, 6) {
+						seq = r.Pick(0, total+1)
+					}
+					rf := r.Range(0, 127)
+					oct := []int{5, 0, 3, rf, total, seq}
+					if r.Chance(1, 3) {
+						oct = []int{6, 8, 4, rf, r.Range(0, 127), total, seq}
+					}
+					tail := string(nonNulASCII(r, r.Range(0, 20)))
+					if r.Chance(1, 3) {
+						tail = " por hora"
+					}
+					var asOctets, asSeptets, asUnits []rune
+					for _, o := range oct {
+						asOctets = append(asOctets, rune(o))
+						if o < 128 && o != 0x1b && tab.Basic[o] >= 0 {
+							asSeptets = append(asSeptets, tab.Basic[o])
+						}
+					}
+					for i := 0; i+1 < len(oct); i += 2 {
+						if u := rune(oct[i]<<8 | oct[i+1]); u < 0xd800 {
+							asUnits = append(asUnits, u)
+						}
+					}
+					if len(oct)%2 == 1 {
+						asUnits = append(asUnits, rune(oct[len(oct)-1]<<8|r.Range(0x20, 0x7e)))
+					}
+					for i, t := range []string{string(asOctets) + tail, string(asSeptets) + tail, string(asUnits) + tail} {
+						if utf8.ValidString(t) {
+							c05Text(c, t, true)
+							c.Cover(fmt.Sprintf("lookalike/%d/%d", len(oct), i))
+						}
+					}
+				},
+			},
+			{
 				Name: "unsupported", Exhaustive: "all 256 CMPP data-coding numbers; SMPP numbers -2..300 plus random ints",
 				N: func(fw.Tier) uint64 { return 64 },
 				Run: func(c *fw.Case) {
